@@ -172,6 +172,10 @@ impl Display for Interval {
         write(self.hours(), "hour")?;
         write(self.minutes(), "minute")?;
         write(self.seconds(), "second")?;
+        // an empty string could not be parsed back (and reads as NULL in a CSV file)
+        if space.is_empty() {
+            write!(f, "0 seconds")?;
+        }
         Ok(())
     }
 }
